@@ -15,6 +15,8 @@ pub fn clone_step<M: MArch, const N: usize>(op: u8, on_clone: bool, paths: u8) {
     assume_no_overflow(&m);
     let mut world = load::<M, N>(&m);
     let mut c = world.clone();
+    assert!(M::arch(&c).len() == m.len && M::arch(&c).capacity() == N, "clone has another len/capacity than the original");
+    assert!(M::arch(&world).capacity() == N, "cloning changed the original's capacity");
     let mc: Model<N> = read::<M, N>(&mut c);
     assert_unchanged::<M, N>(&m, &mc);
     assert!(M::arch(&c).len() == m.len && M::arch(&c).capacity() == N, "clone has another len/capacity");
